@@ -955,7 +955,7 @@ fn run(cfg: &Config, s: &mut Session) {
     }
 
     // --- generated mappings
-    let n_small = if thorough { 12000 } else { 1500 };
+    let n_small = if thorough { 60000 } else { 1500 };
     for i in 0..n_small {
         let mut g = Gen { rng: &mut rng };
         let max_g = *g.rng.pick(&[0xFFFFu32, 0xFFFF, 300, 2000]);
@@ -993,7 +993,7 @@ fn run(cfg: &Config, s: &mut Session) {
         builder_case(s, &mut rng, &runs, all_bmp, ng);
     }
     // --- large mappings: many segments / many glyph ids, up to and past the 64 KiB format-4 limit
-    let n_large = if thorough { 60 } else { 8 };
+    let n_large = if thorough { 240 } else { 8 };
     for i in 0..n_large {
         let mut g = Gen { rng: &mut rng };
         let n_runs = *g.rng.pick(&[300usize, 1000, 3000, 7000, 9000]);
@@ -1007,12 +1007,12 @@ fn run(cfg: &Config, s: &mut Session) {
     }
 
     // --- readers on arbitrary tables
-    let n_raw = if thorough { 20000 } else { 2500 };
+    let n_raw = if thorough { 80000 } else { 2500 };
     for _ in 0..n_raw {
         raw4_case(s, &mut rng, thorough);
         raw12_case(s, &mut rng);
     }
-    let n_sel = if thorough { 20000 } else { 3000 };
+    let n_sel = if thorough { 60000 } else { 3000 };
     for _ in 0..n_sel {
         selection_case(s, &mut rng);
     }
